@@ -342,13 +342,39 @@ impl Monitor for C13 {
         let r = guard(|| {
             let orig = Arr::build_curve(&dmin);
             let mut ext = Arr::build_curve(&dmin);
+            // queries BEFORE the extension (also on a clone, beyond the prefix) must leave no trace
+            let pre1 = ext.number_arrivals(Duration::from(3 * last + 2));
+            let cl = ext.clone();
+            let pre2 = cl.number_arrivals(Duration::from(7 * last + 1));
+            let _ = (pre1, pre2);
             match which {
                 0 => ext.extrapolate(Duration::from(horizon)),
                 1 => ext.extrapolate_steps(nsteps),
                 _ => ext.extrapolate_with_bound((Duration::from(bound_delta), dmin.len() + 2 - rng.usize(0, 1))),
             }
+            // first queries after the extension: slightly longer windows than the ones asked before it
+            // (the extension may have tightened them below the earlier, un-extrapolated answers), also on
+            // a clone that inherited whatever state the earlier queries left behind and is extended itself
+            let _ = ext.number_arrivals(Duration::from(3 * last + 3));
+            let _ = ext.number_arrivals(Duration::from(7 * last + 2));
+            let mut cl2 = cl.clone();
+            cl2.extrapolate(Duration::from(9 * last + 9));
+            let _ = cl2.number_arrivals(Duration::from(7 * last + 2));
             let upto = 12 * last + 12;
             let d_ext: Vec<u64> = (2..=(dmin.len() + 60)).map(|n| u64::from(ext.min_distance(n))).collect();
+            // the same extension applied to an object that was never queried before
+            let mut fresh = Arr::build_curve(&dmin);
+            match which {
+                0 => fresh.extrapolate(Duration::from(horizon)),
+                1 => fresh.extrapolate_steps(nsteps),
+                _ => {}
+            }
+            if which != 2 {
+                let (a, b) = (table(&ext, upto), table(&fresh, upto));
+                if a != b {
+                    panic!("a Curve that was queried before being extended answers differently from one that was not");
+                }
+            }
             (table(&orig, upto), table(&ext, upto), d_ext)
         });
         match r {
@@ -443,6 +469,60 @@ impl Monitor for C13 {
                                 }
                             }
                         }
+                    }
+                }
+            }
+        }
+
+        // ------------------------------------------------------------ (D) analyses run twice on the same objects
+        // The cache must be invisible to analyses as well: the same request bounds (sharing ExtrapolatingCurve
+        // caches) analysed twice, and once more with fresh objects, must give the same result.
+        if dmin.len() >= 2 {
+            use response_time_analysis::demand::RBF;
+            use response_time_analysis::ros2::rr;
+            use response_time_analysis::supply::Dedicated;
+            use response_time_analysis::time::Service;
+            use response_time_analysis::wcet::Scalar;
+            let c1 = rng.range(1, 3);
+            let c2 = rng.range(1, 3);
+            let r1 = rng.range(1, 4 * last + 4);
+            let r2 = rng.range(1, 4 * last + 4);
+            let dmin2 = gen_dmin(&mut rng, 4, scale, false);
+            let lim = 2_000u64;
+            let run = |a: &arrival::ExtrapolatingCurve, b: &arrival::ExtrapolatingCurve| -> (String, String) {
+                let (s1, s2) = (Scalar::new(Service::from(c1)), Scalar::new(Service::from(c2)));
+                let cbs = vec![
+                    rr::Callback::new(Duration::from(r1), a, &s1, rr::CallbackType::PolledUnknownPrio),
+                    rr::Callback::new(Duration::from(r2), b, &s2, rr::CallbackType::Timer),
+                ];
+                let sub = [&cbs[0]];
+                let x = rr::rta_subchain(&Dedicated::new(), &cbs[..], &sub[..], Duration::from(lim));
+                let rbf = RBF::new(a.clone(), s1);
+                let y = response_time_analysis::fifo::dedicated_uniproc_rta(&rbf, Duration::from(lim));
+                (format!("{:?}", x), format!("{:?}", y))
+            };
+            let r = guard(|| {
+                let a = arrival::ExtrapolatingCurve::new(Arr::build_curve(&dmin));
+                let b = arrival::ExtrapolatingCurve::new(Arr::build_curve(&dmin2));
+                let first = run(&a, &b);
+                let second = run(&a, &b);
+                let fa = arrival::ExtrapolatingCurve::new(Arr::build_curve(&dmin));
+                let fb = arrival::ExtrapolatingCurve::new(Arr::build_curve(&dmin2));
+                // warm the fresh caches differently before analysing
+                let _ = fa.number_arrivals(Duration::from(9 * last + 3));
+                let third = run(&fa, &fb);
+                (first, second, third)
+            });
+            rep.count("analyses_repeated_on_shared_caches", 1);
+            match r {
+                Err(c) => rep.violation(format!("C13 part=analysis-twice kind={} class={}", c.kind, c.class()), jobj! {"prefix"=>&dmin,"prefix2"=>&dmin2,"caught"=>c.to_json()}),
+                Ok((first, second, third)) => {
+                    if first != second || first != third {
+                        rep.violation(
+                            "C13 part=analysis-twice kind=analysis-result-depends-on-cache-state".to_string(),
+                            jobj! {"prefix"=>&dmin,"prefix2"=>&dmin2,"costs"=>vec![c1,c2],"assumed_bounds"=>vec![r1,r2],
+                            "first_run_[rr,fifo]"=>vec![first.0.clone(), first.1.clone()],"second_run_same_objects"=>vec![second.0, second.1],"run_on_fresh_pre-warmed_objects"=>vec![third.0, third.1]},
+                        );
                     }
                 }
             }
